@@ -572,32 +572,54 @@ func c17(c *Ctx) {
 			}
 			return okPhi(phi, 0)
 		}
-		Instrs(fn, func(ins ssa.Instruction) {
-			var v ssa.Value
-			what := ""
-			switch x := ins.(type) {
-			case *ssa.MapUpdate:
-				if ir.Root(x.Map) != nil && types.Identical(x.Map.Type().Underlying(), mt) {
-					v, what = x.Key, "map key"
-				}
-			case *ssa.Store:
-				if fa, ok := x.Addr.(*ssa.FieldAddr); ok {
-					if o, n, _ := ir.FieldName(fa); o != nil && o.Obj().Name() == "HwmonSensor" && n == "Index" {
-						v, what = x.Val, "HwmonSensor.Index"
+		// the sensor may be built by a helper that receives the position as a parameter
+		scan := []*ssa.Function{fn}
+		for _, g := range c.P.Funcs {
+			if g != fn && load_FuncPkgPath(g) == PkgHwmon && len(c.StaticCallers(g)) > 0 {
+				onlyFromFn := true
+				for _, site := range c.StaticCallers(g) {
+					if site.Parent() != fn {
+						onlyFromFn = false
 					}
 				}
+				if onlyFromFn {
+					scan = append(scan, g)
+				}
 			}
-			if v == nil {
-				return
-			}
-			npos++
-			key := fk + "|" + what
-			if isCounter(v) {
-				c.R.Ok("R-position", key, fk, c.P.Pos(ins.Pos()), what+" is the running count of accepted temperature inputs (position on the chip)")
-			} else {
-				c.R.Bad("R-position", key, fk, c.P.Pos(ins.Pos()), what+" is not the position counter but "+tb.Of(v, nil).String()+": a configured index then selects a different device than 'the n-th temperature input of the chip' (or none) on chips whose inputs are not numbered 1..n")
-			}
-		})
+		}
+		for _, sf := range scan {
+			Instrs(sf, func(ins ssa.Instruction) {
+				var v ssa.Value
+				what := ""
+				switch x := ins.(type) {
+				case *ssa.MapUpdate:
+					if ir.Root(x.Map) != nil && types.Identical(x.Map.Type().Underlying(), mt) {
+						v, what = x.Key, "map key"
+					}
+				case *ssa.Store:
+					if fa, ok := x.Addr.(*ssa.FieldAddr); ok {
+						if o, n, _ := ir.FieldName(fa); o != nil && o.Obj().Name() == "HwmonSensor" && n == "Index" {
+							v, what = x.Val, "HwmonSensor.Index"
+						}
+					}
+				}
+				if v == nil {
+					return
+				}
+				if p, isParam := ir.Resolve(v).(*ssa.Parameter); isParam {
+					if arg := ir.ParamArg(p, c.StaticCallers); arg != nil {
+						v = arg
+					}
+				}
+				npos++
+				key := fk + "|" + what
+				if isCounter(v) {
+					c.R.Ok("R-position", key, fk, c.P.Pos(ins.Pos()), what+" is the running count of accepted temperature inputs (position on the chip)")
+				} else {
+					c.R.Bad("R-position", key, fk, c.P.Pos(ins.Pos()), what+" is not the position counter but "+tb.Of(v, nil).String()+": a configured index then selects a different device than 'the n-th temperature input of the chip' (or none) on chips whose inputs are not numbered 1..n")
+				}
+			})
+		}
 	}
 	if npos == 0 {
 		c.R.Undecided("R-position", "none", PkgHwmon, "-", "no discovery function building map[int]*HwmonSensor found (anchor unresolved)")
